@@ -42,6 +42,9 @@ def render(ops, cfg, data, with_probe=True):
     rc = 1
     for op, arg, cls in ops:
         s.append("mark %s" % cls)
+        if op == "free":            # the last reference goes, whatever the state (mid-utterance too): nothing follows
+            s.append("free")
+            return s
         if op == "start":
             s.append("start")
         elif op == "end":
@@ -196,7 +199,7 @@ def run(ctx):
         rep.violation(key, "event %d of %s: %s (announced %s): %s" % (f.local_line, f.exec_id, f.clause, prev.get("v"), f.event.strip()[:300]), p)
     for eid, ch in chunks[:2]:
         rep.sample({"execution": eid, "calls": [l for l in by_id[eid] if not l.startswith(("audio", "mark", "init"))][:24]})
-    rep.rule = ("executions = tours taking every (abstract state, call) edge of ApiImpl's graph (16 states x 39 calls incl. "
+    rep.rule = ("executions = tours taking every (abstract state, call) edge of ApiImpl's graph (24 states and the freed one x 40 calls incl. freeing the decoder in every state, mid-utterance too, "
                 "out-of-order calls, bad grammars/words, abandoned iterators, retained lattice/decoder), one process each under "
                 "ASan+LSan with assertions on, each ending in a fixed probe utterance; non-trivial = execution in which >= 2 "
                 "calls returned an object; plus config_* histories (every edge of ConfigImpl's graph and seeded random histories on "
